@@ -90,7 +90,7 @@ class G:
         if k == "Bag":
             c = r.random()
             if c < 0.25 and not self.faults and self.vecbags:
-                n = r.choice([2, 2, 3])
+                n = r.choice([2, 2, 3, 10])         # (two-digit dimensions: "N10")
                 return {"k": "Bag", "range": "N%d" % n, "q": self.q(["vec"] + [r.randint(0, 2) for _ in range(n)])}
             if c < 0.6:
                 return {"k": "Bag", "range": "N", "q": self.q(self.numexpr())}
